@@ -684,6 +684,29 @@ class Env:
         fp["schemaCode"] = self.schema_code(cls)
         fp["stub"] = self.stub_text(c)
 
+    def shared_export(self, c, shared):
+        """structure_to_schema(cls, shared) with a caller-owned accumulator that already holds the definitions other
+        classes exported: the schema and, transitively, the definitions its $refs point at in the accumulator"""
+        from typedpy.json_schema import structure_to_schema
+        try:
+            schema, _ = structure_to_schema(self.classes[c], shared)
+            seen, todo = {}, [schema]
+            while todo:
+                node = todo.pop()
+                if isinstance(node, dict):
+                    ref = node.get("$ref")
+                    if isinstance(ref, str) and ref.startswith("#/definitions/"):
+                        name = ref[len("#/definitions/"):]
+                        if name not in seen:
+                            seen[name] = json.loads(json.dumps(shared.get(name), default=str))
+                            todo.append(seen[name])
+                    todo.extend(node.values())
+                elif isinstance(node, list):
+                    todo.extend(node)
+            return {"ok": self.canon_json({"schema": schema, "defs": seen})}
+        except Exception as e:
+            return {"err": err_name(e), "msg": canon_msg(e)}
+
     def stub_text(self, c):
         """the .pyi text typedpy generates for the class, among the classes its definition depends on (the generated
         `serialize` method of a FastSerializable class is not part of the class's definition: its line is dropped)"""
@@ -765,6 +788,12 @@ def _run_job(env, job):
     for c in job.get("fp", []):
         if c in env.classes:
             env.fingerprint_schema(c, out["fp"][str(c)])
+    # third phase: schema export of the classes, in order, into ONE definitions accumulator (the usual way of exporting
+    # several classes to one schema file): what a class's $refs resolve to right after its own export
+    shared = {}
+    for c in job.get("fp", []):
+        if c in env.classes:
+            out["fp"][str(c)]["sharedExport"] = env.shared_export(c, shared)
     return out
 
 
